@@ -1,5 +1,5 @@
 (* Proofs about the hierarchy-index model (coq/model/Hierarchy.v). *)
-From Coq Require Import List NArith ZArith Bool Arith PeanoNat Lia ZifyBool ZifyNat ZifyN.
+From Coq Require Import List NArith ZArith Bool Arith PeanoNat Lia ZifyBool ZifyNat ZifyN Permutation.
 From Verif Require Import CheckLib Hierarchy.
 Import ListNotations.
 
@@ -1154,3 +1154,776 @@ Proof.
   - apply Nat.leb_le. apply H. apply nth_In. auto.
   - rewrite nth_overflow by lia. cbn. lia.
 Qed.
+
+(* ================= 7. index-level roll-up for the nested-set encoding ================= *)
+Lemma rop_eqb_eq : forall a b, rop_eqb a b = true <-> a = b.
+Proof. intros [] []; cbn; split; intros; congruence. Qed.
+
+Lemma assoc_filter_other : forall o o' l, o <> o' ->
+  assoc_op o (filter (fun e : rop * rdata => negb (rop_eqb o' (fst e))) l) = assoc_op o l.
+Proof.
+  intros o o' l Hne. induction l as [|[k d] l IH]; cbn; auto.
+  destruct (rop_eqb o' k) eqn:E; cbn.
+  - apply rop_eqb_eq in E. subst k. destruct (rop_eqb o o') eqn:E2; [apply rop_eqb_eq in E2; congruence|auto].
+  - rewrite IH. reflexivity.
+Qed.
+
+Lemma assoc_set_measure : forall ix measure ops o acc, o <> OCount ->
+  assoc_op o (fold_left (fun acc o' => match o' with
+                                        | OCount => acc
+                                        | _ => set_op o' (rollup_data ix measure o') acc
+                                        end) ops acc)
+  = if existsb (rop_eqb o) ops then Some (rollup_data ix measure o) else assoc_op o acc.
+Proof.
+  intros ix measure ops o. induction ops as [|o' ops IH]; intros acc Hne; cbn [fold_left existsb]; auto.
+  rewrite IH by auto. destruct (existsb (rop_eqb o) ops); [rewrite orb_true_r; reflexivity|].
+  rewrite orb_false_r. destruct (rop_eqb o o') eqn:E.
+  - apply rop_eqb_eq in E. subst o'. destruct o; try congruence; cbn; reflexivity.
+  - assert (o <> o') by (intros ->; destruct o'; discriminate).
+    destruct o'; auto; unfold set_op; cbn [assoc_op]; rewrite E; apply assoc_filter_other; auto.
+Qed.
+
+(* by_rank: the value stored at rank tin[v] is the measure of v *)
+Definition br_step (tin : list nat) (dflt : rv) (st : list rv * nat) (m : option Z) : list rv * nat :=
+  (upd (fst st) (nth (snd st) tin 0) (rv_of m dflt), S (snd st)).
+
+Lemma by_rank_fold : forall (tin : list nat) dflt n l k acc,
+  (forall i j, i < n -> j < n -> nth i tin 0 = nth j tin 0 -> i = j) ->
+  (forall i, i < n -> nth i tin 0 < length acc) ->
+  k + length l <= n ->
+  length (fst (fold_left (br_step tin dflt) l (acc, k))) = length acc /\
+  forall v, v < n ->
+    nth (nth v tin 0) (fst (fold_left (br_step tin dflt) l (acc, k))) RNull =
+    if (k <=? v) && (v <? k + length l) then rv_of (nth (v - k) l None) dflt
+    else nth (nth v tin 0) acc RNull.
+Proof.
+  intros tin dflt n. induction l as [|m l IH]; intros k acc Hinj Hlt Hk; cbn [fold_left length] in *.
+  - split; auto. intros v Hv. destruct (Nat.leb_spec k v); destruct (Nat.ltb_spec v (k + 0)); cbn; auto; lia.
+  - unfold br_step at 2. cbn [fst snd].
+    destruct (IH (S k) (upd acc (nth k tin 0) (rv_of m dflt))) as [I1 I2]; auto.
+    { intros i Hi. rewrite upd_length. auto. }
+    { lia. }
+    rewrite upd_length in I1. split; auto. intros v Hv. rewrite I2 by auto.
+    destruct (Nat.eqb_spec v k) as [->|Hne].
+    + replace (k - k) with 0 by lia. cbn [nth].
+      destruct (Nat.leb_spec (S k) k); [lia|]. destruct (Nat.leb_spec k k); [|lia].
+      destruct (Nat.ltb_spec k (k + S (length l))); [|lia]. cbn [andb].
+      rewrite nth_upd by (apply Hlt; lia). rewrite Nat.eqb_refl. reflexivity.
+    + destruct (Nat.leb_spec (S k) v); destruct (Nat.leb_spec k v); destruct (Nat.ltb_spec v (S k + length l));
+        destruct (Nat.ltb_spec v (k + S (length l))); cbn [andb]; try lia.
+      * replace (v - k) with (S (v - S k)) by lia. reflexivity.
+      * rewrite nth_upd_other; auto. intros E. apply Hinj in E; lia.
+      * rewrite nth_upd_other; auto. intros E. apply Hinj in E; lia.
+Qed.
+
+(* Z sums over lists *)
+Definition zsum (f : nat -> Z) (l : list nat) : Z := fold_right (fun x acc => (f x + acc)%Z) 0%Z l.
+
+Lemma zsum_perm : forall f l l', Permutation l l' -> zsum f l = zsum f l'.
+Proof. intros f l l' H. unfold zsum. induction H; cbn; lia. Qed.
+
+Lemma zsum_app : forall f l1 l2, zsum f (l1 ++ l2) = (zsum f l1 + zsum f l2)%Z.
+Proof. unfold zsum. induction l1; intros; cbn; [lia|]. rewrite IHl1. lia. Qed.
+
+Lemma sum_to_seq : forall a lo len, (sum_to a (lo + len) - sum_to a lo)%Z = zsum a (seq lo len).
+Proof.
+  intros a lo len. revert lo. induction len as [|len IH]; intros lo.
+  - rewrite Nat.add_0_r. cbn. lia.
+  - cbn [seq zsum fold_right]. fold (zsum a (seq (S lo) len)). rewrite <- IH.
+    replace (lo + S len) with (S lo + len) by lia. cbn [sum_to]. lia.
+Qed.
+
+Lemma zsum_map : forall (f : nat -> Z) (g : nat -> nat) l, zsum f (map g l) = zsum (fun x => f (g x)) l.
+Proof. unfold zsum. induction l; cbn; congruence. Qed.
+
+Lemma zsum_ext_in : forall f g l, (forall x, In x l -> f x = g x) -> zsum f l = zsum g l.
+Proof. unfold zsum. induction l; intros H; cbn; auto. rewrite H, IHl; cbn; auto. intros; apply H; cbn; auto. Qed.
+
+Lemma map_nth_seq : forall (l : list nat) lo len, lo + len <= length l ->
+  map (fun r => nth r l 0) (seq lo len) = firstn len (skipn lo l).
+Proof.
+  induction l as [|a l IH]; intros lo len H.
+  - cbn in H. assert (len = 0) by lia. subst. destruct lo; reflexivity.
+  - destruct lo as [|lo].
+    + destruct len as [|len]; [reflexivity|]. cbn [seq map nth skipn firstn]. f_equal.
+      rewrite <- seq_shift, map_map. cbn [nth]. specialize (IH 0 len). cbn [skipn] in IH. apply IH. cbn in H. lia.
+    + cbn [skipn]. rewrite <- seq_shift, map_map. cbn [nth]. apply IH. cbn in H. lia.
+Qed.
+
+(* the SUM fold of rollup_spec as a Z sum *)
+Definition mval (measure : list (option Z)) (d : nat) : Z :=
+  match nth d measure None with Some z => z | None => 0%Z end.
+
+Lemma spec_sum_fold : forall measure l a,
+  fold_left (fun acc d => match nth d measure None with
+                          | Some z => combine OSum acc (RInt z)
+                          | None => acc
+                          end) l (RInt a) = RInt (a + zsum (mval measure) l).
+Proof.
+  intros measure. induction l as [|d l IH]; intros a; cbn [fold_left zsum fold_right].
+  - f_equal. lia.
+  - unfold mval at 1. destruct (nth d measure None); cbn [combine]; rewrite IH; f_equal; fold (zsum (mval measure) l); lia.
+Qed.
+
+Lemma rv_int_of : forall m, rv_int (rv_of m (RInt 0)) = match m with Some z => z | None => 0%Z end.
+Proof. intros [z|]; reflexivity. Qed.
+
+Section NestedRollup.
+  Variables (p : poset) (rk : nat -> nat).
+  Hypothesis W : wf_poset p rk.
+  Hypothesis F : forest p.
+  Let n := pn p.
+  Let order := flat_map (preorder (S n) (children p)) (roots p).
+  Let tin := map (fun v => index_of v order) (seq 0 n).
+  Let tout := map (fun v => index_of v order + length (preorder (S n) (children p) v) - 1) (seq 0 n).
+
+  Ltac fh := auto; try apply W; try apply roots_nodup; try apply roots_spec.
+
+  Lemma nr_enc : build_nested p = ENested tin tout order.
+  Proof. reflexivity. Qed.
+
+  Lemma nr_tin : forall v, v < n -> nth v tin 0 = tin_of n (children p) (roots p) v.
+  Proof. intros v Hv. unfold tin. rewrite nth_map_seq by auto. reflexivity. Qed.
+
+  Lemma nr_tout : forall v, v < n -> nth v tout 0 = tout_of n (children p) (roots p) v.
+  Proof. intros v Hv. unfold tout. rewrite nth_map_seq by auto. reflexivity. Qed.
+
+  Lemma nr_by_rank : forall measure o r, length measure = n -> r < n ->
+    nth r (by_rank n tin measure o) RNull =
+    rv_of (nth (nth r order 0) measure None) (match o with OSum => RInt 0 | _ => RNull end).
+  Proof.
+    intros measure o r Hm Hr.
+    assert (Hv : nth r order 0 < n).
+    { apply (order_lt n (parents p) (children p) (roots p) rk); fh.
+      apply nth_In. rewrite (order_length n (parents p) (children p) (roots p) rk); fh. }
+    destruct (by_rank_fold tin (match o with OSum => RInt 0 | _ => RNull end) n measure 0 (repeat RNull n)) as [_ B].
+    - intros i j Hi Hj E. rewrite !nr_tin in E by auto.
+      apply (tin_inj n (parents p) (children p) (roots p) rk) in E; fh.
+    - intros i Hi. rewrite repeat_length, nr_tin by auto.
+      apply (tin_lt n (parents p) (children p) (roots p) rk); fh.
+    - lia.
+    - specialize (B (nth r order 0) Hv). rewrite nr_tin in B by auto.
+      rewrite (tin_nth n (parents p) (children p) (roots p) rk) in B; fh.
+      unfold by_rank. change (fold_left _ measure (repeat RNull n, 0))
+        with (fold_left (br_step tin (match o with OSum => RInt 0 | _ => RNull end)) measure (repeat RNull n, 0)).
+      rewrite B. rewrite Nat.sub_0_r.
+      destruct (Nat.leb_spec 0 (nth r order 0)); [|lia].
+      destruct (Nat.ltb_spec (nth r order 0) (0 + length measure)); [reflexivity|lia].
+  Qed.
+
+  Lemma nr_by_rank_length : forall measure o, length measure = n -> length (by_rank n tin measure o) = n.
+  Proof.
+    intros measure o Hm.
+    destruct (by_rank_fold tin (match o with OSum => RInt 0 | _ => RNull end) n measure 0 (repeat RNull n)) as [L _].
+    - intros i j Hi Hj E. rewrite !nr_tin in E by auto.
+      apply (tin_inj n (parents p) (children p) (roots p) rk) in E; fh.
+    - intros i Hi. rewrite repeat_length, nr_tin by auto.
+      apply (tin_lt n (parents p) (children p) (roots p) rk); fh.
+    - lia.
+    - unfold by_rank. change (fold_left _ measure (repeat RNull n, 0))
+        with (fold_left (br_step tin (match o with OSum => RInt 0 | _ => RNull end)) measure (repeat RNull n, 0)).
+      rewrite L. apply repeat_length.
+  Qed.
+
+  Lemma nr_desc_perm : forall y, y < n -> Permutation (preorder (S n) (children p) y) (spec_desc p y).
+  Proof.
+    intros y Hy. destruct (nested_descendants p rk None [] W F y Hy) as [D1 [D2 _]].
+    assert (E : descendants (mk_index p (build_nested p) None []) y = preorder (S n) (children p) y).
+    { unfold descendants, mk_index; cbn [ix_enc]. rewrite nr_enc, nr_tin, nr_tout by auto.
+      apply (forest_slice n (parents p) (children p) (roots p) rk); fh. }
+    cbv zeta in D1, D2. rewrite E in D1, D2.
+    apply NoDup_Permutation; auto. unfold spec_desc. apply NoDup_filter, seq_NoDup.
+  Qed.
+
+  Definition arr (measure : list (option Z)) (r : nat) : Z := mval measure (nth r order 0).
+
+  (* the range sum over the ranks of y's subtree is the sum of the measure over the subtree *)
+  Lemma nr_range_sum : forall a measure y, y < n -> (forall r, r < n -> a r = arr measure r) ->
+    (sum_to a (nth y tout 0%nat + 1)%nat - sum_to a (nth y tin 0%nat))%Z = zsum (mval measure) (spec_desc p y).
+  Proof.
+    intros a measure y Hy Ha. rewrite nr_tin, nr_tout by auto.
+    set (lo := tin_of n (children p) (roots p) y). set (hi := tout_of n (children p) (roots p) y).
+    pose proof (forest_count n (parents p) (children p) (roots p) rk) as Hc.
+    assert (Hcnt : hi - lo + 1 = length (preorder (S n) (children p) y)) by (apply Hc; fh).
+    assert (Hhi : hi < n) by (apply (tout_lt n (parents p) (children p) (roots p) rk); fh).
+    assert (Hlohi : lo <= hi) by (unfold lo, hi, tin_of, tout_of; lia).
+    replace (hi + 1) with (lo + (hi + 1 - lo)) by lia. rewrite sum_to_seq.
+    rewrite (zsum_ext_in a (fun r => mval measure (nth r order 0))).
+    - rewrite <- (zsum_map (mval measure) (fun r => nth r order 0)).
+      assert (Hol : length order = n) by (apply (order_length n (parents p) (children p) (roots p) rk); fh).
+      rewrite map_nth_seq by (rewrite Hol; lia).
+      fold (slice order lo hi). unfold lo, hi.
+      rewrite (forest_slice n (parents p) (children p) (roots p) rk); fh.
+      apply zsum_perm. apply nr_desc_perm; auto.
+    - intros r Hr. apply in_seq in Hr. apply Ha. lia.
+  Qed.
+
+  (* the invariant a nested-set index keeps through set_measure and every update_measure *)
+  Definition nested_ok (ix : index) (measure : list (option Z)) : Prop :=
+    ix_poset ix = p /\ ix_enc ix = build_nested p /\ ix_measure ix = Some measure /\ length measure = n /\
+    forall d, assoc_op OSum (ix_rollups ix) = Some d -> exists t, d = RFenwick t /\ fw_inv t (arr measure) n.
+
+  Lemma fw_inv_ext_lt : forall t a b m, fw_inv t a m -> (forall i, i < m -> a i = b i) -> fw_inv t b m.
+  Proof.
+    intros t a b m [Hlen Hinv] Hab. split; auto. intros j Hj. rewrite Hinv by auto.
+    rewrite (sum_to_ext a b j), (sum_to_ext a b (j - lowbit j)); auto; intros i Hi; apply Hab; lia.
+  Qed.
+
+  Lemma nested_ok_set : forall measure ops, length measure = n ->
+    nested_ok (set_measure (mk_index p (build_nested p) None []) measure ops) measure.
+  Proof.
+    intros measure ops Hm. repeat split; auto.
+    intros d Hd. unfold set_measure, mk_index in Hd. cbn [ix_rollups] in Hd.
+    rewrite assoc_set_measure in Hd by discriminate. cbn [assoc_op] in Hd.
+    destruct (existsb (rop_eqb OSum) ops); [|discriminate]. inversion Hd; subst d.
+    unfold rollup_data. cbn [ix_enc ix_poset is_invertible]. rewrite nr_enc.
+    eexists; split; [reflexivity|]. fold n.
+    pose proof (fw_build_inv (map rv_int (by_rank n tin measure OSum))) as HI.
+    rewrite map_length, nr_by_rank_length in HI by auto.
+    eapply fw_inv_ext_lt; [exact HI|]. intros i Hi. cbn beta.
+    change 0%Z with (rv_int RNull). rewrite map_nth. rewrite nr_by_rank by auto.
+    rewrite rv_int_of. reflexivity.
+  Qed.
+
+  Lemma assoc_map_upd : forall (f : rop -> rdata -> rdata) o l,
+    assoc_op o (map (fun e : rop * rdata => (fst e, f (fst e) (snd e))) l) = option_map (f o) (assoc_op o l).
+  Proof.
+    intros f o. induction l as [|[k d] l IH]; cbn; auto.
+    destruct (rop_eqb o k) eqn:E; auto. apply rop_eqb_eq in E. subst. reflexivity.
+  Qed.
+
+  Lemma mval_upd : forall measure node v x, node < length measure ->
+    mval (upd measure node v) x = if x =? node then match v with Some z => z | None => 0%Z end else mval measure x.
+  Proof.
+    intros measure node v x H. unfold mval. rewrite nth_upd by auto. destruct (x =? node); reflexivity.
+  Qed.
+
+  Lemma nested_ok_update : forall ix measure node v, nested_ok ix measure -> node < n ->
+    exists ix', update_measure ix node v = Some ix' /\ nested_ok ix' (upd measure node v) /\
+      (forall o, assoc_op o (ix_rollups ix') = None <-> assoc_op o (ix_rollups ix) = None).
+  Proof.
+    intros ix measure node v [Hp [He [Hmm [Hl Hf]]]] Hnode.
+    unfold update_measure. rewrite Hmm. eexists; split; [reflexivity|].
+    split; [|intros o; cbn [ix_rollups]; rewrite assoc_map_upd; destruct (assoc_op o (ix_rollups ix)); cbn; split; congruence].
+    repeat split; cbn [ix_poset ix_enc ix_measure ix_rollups]; auto.
+    - rewrite upd_length. auto.
+    - intros d Hd. rewrite assoc_map_upd in Hd.
+      destruct (assoc_op OSum (ix_rollups ix)) as [d0|] eqn:E0; [|discriminate].
+      destruct (Hf d0 eq_refl) as [t [-> Ht]]. cbn [option_map] in Hd. inversion Hd; subst d. clear Hd.
+      unfold update_rdata. rewrite He, nr_enc. cbn [is_invertible].
+      eexists; split; [reflexivity|].
+      assert (Hrank : nth node tin 0 < n).
+      { rewrite nr_tin by auto. apply (tin_lt n (parents p) (children p) (roots p) rk); fh. }
+      eapply fw_inv_ext_lt; [apply fw_add_inv; eauto|].
+      intros r Hr. unfold addf, arr. rewrite mval_upd by lia.
+      assert (Hnr : nth (nth node tin 0) order 0 = node).
+      { rewrite nr_tin by auto. unfold tin_of. apply nth_index_of.
+        apply (in_order n (parents p) (children p) (roots p) rk); fh. }
+      destruct (Nat.eqb_spec r (nth node tin 0)) as [->|Hne].
+      + rewrite Hnr, Nat.eqb_refl. unfold mval.
+        destruct v as [z|], (nth node measure None) as [z0|]; lia.
+      + destruct (Nat.eqb_spec (nth r order 0) node) as [E|_]; auto.
+        exfalso. apply Hne. rewrite <- E. rewrite nr_tin.
+        * symmetry. apply (tin_nth n (parents p) (children p) (roots p) rk); fh.
+        * rewrite E. auto.
+  Qed.
+
+  Lemma nested_ok_rollup : forall ix measure y, nested_ok ix measure -> y < n ->
+    rollup ix y OCount = Some (rollup_spec p measure y OCount) /\
+    (assoc_op OSum (ix_rollups ix) <> None -> rollup ix y OSum = Some (rollup_spec p measure y OSum)).
+  Proof.
+    intros ix measure y [Hp [He [Hmm [Hl Hf]]]] Hy. split.
+    - destruct ix as [ip ie im ir]. cbn [ix_poset ix_enc] in Hp, He. subst ip ie.
+      destruct (nested_descendants p rk im ir W F y Hy) as [_ [_ [D3 D4]]].
+      cbv zeta in D3, D4. unfold mk_index in D3, D4. unfold rollup, rollup_spec. rewrite D3, D4. reflexivity.
+    - intros Hs. destruct (assoc_op OSum (ix_rollups ix)) as [d|] eqn:E; [|congruence].
+      destruct (Hf d eq_refl) as [t [-> Ht]].
+      unfold rollup. rewrite E, He, nr_enc. f_equal.
+      change (rollup_spec p measure y OSum) with
+        (fold_left (fun acc d => match nth d measure None with
+                                 | Some z => combine OSum acc (RInt z)
+                                 | None => acc
+                                 end) (spec_desc p y) (RInt 0)).
+      rewrite spec_sum_fold. f_equal.
+      rewrite (fw_range_spec t (arr measure) n); auto.
+      + rewrite (nr_range_sum (arr measure) measure y); auto; lia.
+      + rewrite nr_tin, nr_tout by auto. unfold tin_of, tout_of.
+        assert (length (preorder (S n) (children p) y) >= 1)
+          by (apply (T_nonempty n (parents p) (children p) (roots p) rk); fh).
+        lia.
+      + rewrite nr_tout by auto. apply (tout_lt n (parents p) (children p) (roots p) rk); fh.
+  Qed.
+
+  Fixpoint apply_updates (ix : index) (us : list (nat * option Z)) : option index :=
+    match us with
+    | [] => Some ix
+    | (node, v) :: r => match update_measure ix node v with
+                        | Some ix' => apply_updates ix' r
+                        | None => None
+                        end
+    end.
+  Definition upd_all (measure : list (option Z)) (us : list (nat * option Z)) : list (option Z) :=
+    fold_left (fun m u => upd m (fst u) (snd u)) us measure.
+
+  Theorem nested_rollup_after_updates : forall measure ops us, length measure = n -> In OSum ops ->
+    (forall u, In u us -> fst u < n) ->
+    exists ix', apply_updates (set_measure (mk_index p (build_nested p) None []) measure ops) us = Some ix' /\
+      forall y, y < n ->
+        rollup ix' y OSum = Some (rollup_spec p (upd_all measure us) y OSum) /\
+        rollup ix' y OCount = Some (rollup_spec p (upd_all measure us) y OCount).
+  Proof.
+    intros measure ops us Hm Hin Hus.
+    assert (G : forall us ix m, nested_ok ix m -> assoc_op OSum (ix_rollups ix) <> None ->
+                (forall u, In u us -> fst u < n) ->
+                exists ix', apply_updates ix us = Some ix' /\ nested_ok ix' (upd_all m us) /\
+                            assoc_op OSum (ix_rollups ix') <> None).
+    { induction us0 as [|[node v] us0 IH]; intros ix m Hok Hs Hu.
+      - exists ix. auto.
+      - destruct (nested_ok_update ix m node v Hok) as [ix1 [E1 [Hok1 Hs1]]].
+        { apply (Hu (node, v)). cbn; auto. }
+        cbn [apply_updates]. rewrite E1. unfold upd_all. cbn [fold_left fst snd].
+        apply IH; auto.
+        + intros H. apply Hs1 in H. auto.
+        + intros u Hin'. apply Hu. cbn; auto. }
+    destruct (G us _ measure (nested_ok_set measure ops Hm)) as [ix' [E [Hok Hs]]]; auto.
+    { unfold set_measure, mk_index. cbn [ix_rollups]. rewrite assoc_set_measure by discriminate.
+      replace (existsb (rop_eqb OSum) ops) with true
+        by (symmetry; apply existsb_exists; exists OSum; split; auto).
+      discriminate. }
+    exists ix'; split; auto. intros y Hy.
+    destruct (nested_ok_rollup ix' _ y Hok Hy) as [R1 R2]. split; auto.
+  Qed.
+End NestedRollup.
+
+Ltac Zify.zify_post_hook ::= Z.div_mod_to_equations.
+(* ================= 8. segment tree (MIN / MAX) ================= *)
+(* RNull is a two-sided identity of every combine, so folds start from RNull *)
+Definition mfold (o : rop) (l : list rv) : rv := fold_right (combine o) RNull l.
+
+Lemma mfold_app : forall o a b, mfold o (a ++ b) = combine o (mfold o a) (mfold o b).
+Proof.
+  intros o a b. unfold mfold. induction a as [|x a IH]; cbn [app fold_right]; auto.
+  rewrite IH. apply combine_assoc.
+Qed.
+
+Lemma mfold_perm : forall o l l', Permutation l l' -> mfold o l = mfold o l'.
+Proof.
+  intros o l l' H. unfold mfold. induction H; cbn [fold_right]; auto.
+  - congruence.
+  - rewrite !combine_assoc. f_equal. apply combine_comm.
+  - congruence.
+Qed.
+
+Lemma combine_swap : forall o x y z, combine o (combine o x y) z = combine o (combine o x z) y.
+Proof. intros. rewrite <- !combine_assoc. f_equal. apply combine_comm. Qed.
+
+Section SegTree.
+  Variable o : rop.
+  Variable size : nat.
+  Hypothesis Hsize : 1 <= size.
+
+  Local Notation nd t k := (nth k t RNull) (only parsing).
+  Definition node_ok (t : list rv) (i : nat) : Prop := nd t i = combine o (nd t (2 * i)) (nd t (2 * i + 1)).
+  Definition st_inv (t : list rv) : Prop :=
+    length t = 2 * size /\ forall i, 1 <= i < size -> node_ok t i.
+
+  (* fold of the cells l .. r-1 *)
+  Definition F (t : list rv) (l r : nat) : rv := mfold o (map (fun k => nth k t RNull) (seq l (r - l))).
+
+  Lemma F_empty : forall t l r, r <= l -> F t l r = RNull.
+  Proof. intros t l r H. unfold F. replace (r - l) with 0 by lia. reflexivity. Qed.
+
+  Lemma F_left : forall t l r, l < r -> F t l r = combine o (nd t l) (F t (S l) r).
+  Proof.
+    intros t l r H. unfold F. replace (r - l) with (S (r - S l)) by lia. reflexivity.
+  Qed.
+
+  Lemma F_right : forall t l r, l < r -> F t l r = combine o (F t l (r - 1)) (nd t (r - 1)).
+  Proof.
+    intros t l r H. unfold F. replace (r - l) with (S (r - 1 - l)) by lia.
+    rewrite seq_S, map_app, mfold_app. cbn [map mfold fold_right].
+    rewrite combine_null_r. replace (l + (r - 1 - l)) with (r - 1) by lia. reflexivity.
+  Qed.
+
+  Lemma F_pair : forall t, st_inv t -> forall d a b, b - a = d -> 1 <= a -> a <= b -> b <= size ->
+    F t (2 * a) (2 * b) = F t a b.
+  Proof.
+    intros t [Hlen Hok]. induction d as [|d IH]; intros a b Hd Ha Hab Hb.
+    - rewrite !F_empty by lia. reflexivity.
+    - rewrite (F_left t (2 * a)) by lia. rewrite (F_left t (S (2 * a))) by lia.
+      rewrite (F_left t a) by lia. rewrite combine_assoc.
+      replace (S (S (2 * a))) with (2 * (S a)) by lia.
+      rewrite (IH (S a) b) by lia.
+      f_equal. replace (S (2 * a)) with (2 * a + 1) by lia. symmetry. apply Hok. lia.
+  Qed.
+
+  Lemma odd_cases : forall l, (Nat.odd l = true /\ exists k, l = 2 * k + 1) \/ (Nat.odd l = false /\ exists k, l = 2 * k).
+  Proof.
+    intros l. destruct (Nat.odd l) eqn:E.
+    - left. split; auto. apply Nat.odd_spec in E. destruct E as [k ->]. exists k. lia.
+    - right. split; auto. rewrite <- Nat.negb_even in E. apply negb_false_iff in E.
+      apply Nat.even_spec in E. destruct E as [k ->]. exists k. lia.
+  Qed.
+
+  Lemma range_loop_spec : forall t, st_inv t -> forall fuel l r acc,
+    1 <= l -> r <= 2 * size -> r - l < fuel ->
+    st_range_loop fuel t o l r acc = combine o acc (F t l r).
+  Proof.
+    intros t Hinv. induction fuel as [|f IH]; intros l r acc Hl Hr Hf; [lia|].
+    cbn [st_range_loop]. destruct (Nat.ltb_spec l r) as [Hlr|Hlr].
+    2:{ rewrite F_empty by lia. rewrite combine_null_r. reflexivity. }
+    destruct (odd_cases l) as [[El [a Ea]]|[El [a Ea]]]; destruct (odd_cases r) as [[Er [b Eb]]|[Er [b Eb]]];
+      rewrite El, Er; cbv beta iota zeta.
+    - (* l odd, r odd *)
+      rewrite IH by lia.
+      replace ((l + 1) / 2) with (a + 1) by lia. replace ((r - 1) / 2) with b by lia.
+      rewrite <- (F_pair t Hinv (b - (a + 1)) (a + 1) b) by lia.
+      rewrite (F_left t l) by lia. rewrite (F_right t (S l)) by lia.
+      replace (2 * (a + 1)) with (S l) by lia. replace (2 * b) with (r - 1) by lia.
+      rewrite !combine_assoc. apply combine_swap.
+    - (* l odd, r even *)
+      rewrite IH by lia.
+      replace ((l + 1) / 2) with (a + 1) by lia. replace (r / 2) with b by lia.
+      rewrite <- (F_pair t Hinv (b - (a + 1)) (a + 1) b) by lia.
+      rewrite (F_left t l) by lia.
+      replace (2 * (a + 1)) with (S l) by lia. replace (2 * b) with r by lia.
+      rewrite !combine_assoc. reflexivity.
+    - (* l even, r odd *)
+      rewrite IH by lia.
+      replace (l / 2) with a by lia. replace ((r - 1) / 2) with b by lia.
+      rewrite <- (F_pair t Hinv (b - a) a b) by lia.
+      rewrite (F_right t l) by lia.
+      replace (2 * a) with l by lia. replace (2 * b) with (r - 1) by lia.
+      rewrite !combine_assoc. apply combine_swap.
+    - (* l even, r even *)
+      rewrite IH by lia.
+      replace (l / 2) with a by lia. replace (r / 2) with b by lia.
+      rewrite <- (F_pair t Hinv (b - a) a b) by lia.
+      replace (2 * a) with l by lia. replace (2 * b) with r by lia. reflexivity.
+  Qed.
+End SegTree.
+
+Lemma npow2_loop_spec : forall n fuel s, 1 <= s -> n < s + fuel ->
+  n <= npow2_loop fuel s n /\ 1 <= npow2_loop fuel s n.
+Proof.
+  intros n. induction fuel as [|f IH]; intros s Hs Hf; cbn [npow2_loop]; [lia|].
+  destruct (Nat.leb_spec n s); [lia|]. apply IH; lia.
+Qed.
+
+Lemma next_pow2_spec : forall n, n <= next_pow2 n /\ 1 <= next_pow2 n.
+Proof. intros n. unfold next_pow2. apply npow2_loop_spec; lia. Qed.
+
+Lemma copy_at_spec : forall (vs t : list rv) i, i + length vs <= length t ->
+  length (copy_at t i vs) = length t /\
+  forall k, nth k (copy_at t i vs) RNull =
+            if (i <=? k) && (k <? i + length vs) then nth (k - i) vs RNull else nth k t RNull.
+Proof.
+  induction vs as [|v vs IH]; intros t i H; cbn [copy_at length] in *.
+  - split; auto. intros k. destruct (Nat.leb_spec i k); destruct (Nat.ltb_spec k (i + 0)); cbn; auto; lia.
+  - destruct (IH (upd t i v) (S i)) as [I1 I2]; [rewrite upd_length; lia|].
+    rewrite upd_length in I1. split; auto. intros k. rewrite I2.
+    destruct (Nat.eqb_spec k i) as [->|Hne].
+    + destruct (Nat.leb_spec (S i) i); [lia|]. destruct (Nat.leb_spec i i); [|lia].
+      destruct (Nat.ltb_spec i (i + S (length vs))); [|lia]. cbn [andb].
+      rewrite nth_upd by lia. rewrite Nat.eqb_refl, Nat.sub_diag. reflexivity.
+    + rewrite nth_upd_other by auto.
+      destruct (Nat.leb_spec (S i) k); destruct (Nat.leb_spec i k); destruct (Nat.ltb_spec k (S i + length vs));
+        destruct (Nat.ltb_spec k (i + S (length vs))); cbn [andb]; try lia; auto.
+      replace (k - i) with (S (k - S i)) by lia. reflexivity.
+Qed.
+
+Definition build_step (o : rop) (t : list rv) (i : nat) : list rv :=
+  upd t i (combine o (nth (2 * i) t RNull) (nth (2 * i + 1) t RNull)).
+
+Lemma build_loop_spec : forall o size m t, length t = 2 * size -> m < size ->
+  (forall i, m < i < size -> node_ok o t i) ->
+  let t' := fold_left (build_step o) (rev (seq 1 m)) t in
+  length t' = 2 * size /\ (forall i, 1 <= i < size -> node_ok o t' i) /\
+  (forall k, size <= k -> nth k t' RNull = nth k t RNull).
+Proof.
+  intros o size. induction m as [|m IH]; intros t Hlen Hm Hok; cbv zeta.
+  - cbn. split; [auto|]. split; [intros i Hi; apply Hok; lia|auto].
+  - rewrite seq_S, rev_app_distr. cbn [rev app fold_left]. replace (1 + m) with (S m) by lia.
+    destruct (IH (build_step o t (S m))) as [I1 [I2 I3]].
+    + unfold build_step. rewrite upd_length. auto.
+    + lia.
+    + intros i Hi. unfold node_ok, build_step.
+      destruct (Nat.eq_dec i (S m)) as [->|Hne].
+      * rewrite nth_upd by lia. rewrite Nat.eqb_refl. rewrite !nth_upd_other by lia. reflexivity.
+      * rewrite !nth_upd_other by lia. apply Hok. lia.
+    + cbv zeta in I1, I2, I3. split; auto. split; auto.
+      intros k Hk. rewrite I3 by auto. unfold build_step. apply nth_upd_other. lia.
+Qed.
+
+(* what a segment tree must satisfy to represent the array [vals] *)
+Definition st_ok (s : segtree) (vals : list rv) : Prop :=
+  1 <= st_size s /\ st_n s = length vals /\ length vals <= st_size s /\
+  st_inv (st_op s) (st_size s) (st_tree s) /\
+  forall j, j < st_size s -> nth (st_size s + j) (st_tree s) RNull = nth j vals RNull.
+
+Lemma st_build_ok : forall vals o, identity o = RNull -> st_ok (st_build vals o) vals /\ st_op (st_build vals o) = o.
+Proof.
+  intros vals o Hid. unfold st_build.
+  set (n := length vals). set (size := next_pow2 (Nat.max n 1)).
+  destruct (next_pow2_spec (Nat.max n 1)) as [P1 P2]. fold size in P1, P2.
+  set (t0 := copy_at (repeat (identity o) (2 * size)) size vals).
+  destruct (copy_at_spec vals (repeat (identity o) (2 * size)) size) as [C1 C2]; [rewrite repeat_length; lia|].
+  fold t0 in C1, C2. rewrite repeat_length in C1.
+  change (fold_left _ (rev (seq 1 (size - 1))) t0) with (fold_left (build_step o) (rev (seq 1 (size - 1))) t0).
+  destruct (build_loop_spec o size (size - 1) t0) as [B1 [B2 B3]]; auto; try lia.
+  cbv zeta in B1, B2, B3.
+  split; [|reflexivity]. unfold st_ok. cbn [st_size st_n st_op st_tree].
+  split; [lia|]. split; [reflexivity|]. split; [lia|]. split; [split; auto|].
+  intros j Hj. rewrite B3 by lia. rewrite C2.
+  destruct (Nat.leb_spec size (size + j)); [|lia].
+  destruct (Nat.ltb_spec (size + j) (size + length vals)); cbn [andb].
+  - f_equal. lia.
+  - rewrite Hid, nth_repeat. rewrite nth_overflow by (fold n; lia). reflexivity.
+Qed.
+
+Lemma map_nth_seq_rv : forall (l : list rv) lo len, lo + len <= length l ->
+  map (fun r => nth r l RNull) (seq lo len) = firstn len (skipn lo l).
+Proof.
+  induction l as [|a l IH]; intros lo len H.
+  - cbn in H. assert (len = 0) by lia. subst. destruct lo; reflexivity.
+  - destruct lo as [|lo].
+    + destruct len as [|len]; [reflexivity|]. cbn [seq map nth skipn firstn]. f_equal.
+      rewrite <- seq_shift, map_map. cbn [nth]. specialize (IH 0 len). cbn [skipn] in IH. apply IH. cbn in H. lia.
+    + cbn [skipn]. rewrite <- seq_shift, map_map. cbn [nth]. apply IH. cbn in H. lia.
+Qed.
+
+Theorem st_range_ok : forall s vals lo hi, st_ok s vals -> identity (st_op s) = RNull ->
+  lo <= hi -> hi < length vals ->
+  st_range s lo hi = mfold (st_op s) (firstn (hi + 1 - lo) (skipn lo vals)).
+Proof.
+  intros s vals lo hi [Hs [Hn [Hle [Hinv Hleaf]]]] Hid Hlo Hhi. unfold st_range.
+  destruct (Nat.ltb_spec hi lo); [lia|]. destruct (Nat.leb_spec (st_n s) lo); [lia|]. cbn [orb].
+  rewrite Nat.min_l by lia.
+  rewrite (range_loop_spec (st_op s) (st_size s)) by (auto; lia).
+  rewrite Hid. cbn [combine]. unfold F.
+  replace (hi + st_size s + 1 - (lo + st_size s)) with (hi + 1 - lo) by lia.
+  rewrite <- map_nth_seq_rv by lia. f_equal.
+  assert (G : forall len a, a + len <= st_size s ->
+            map (fun k => nth k (st_tree s) RNull) (seq (a + st_size s) len) = map (fun r => nth r vals RNull) (seq a len)).
+  { induction len as [|len IHl]; intros a Ha; cbn [seq map]; auto.
+    f_equal; [rewrite Nat.add_comm; apply Hleaf; lia|]. apply (IHl (S a)). lia. }
+  apply G. lia.
+Qed.
+
+Lemma set_loop_spec : forall o size, 1 <= size -> forall fuel i t,
+  length t = 2 * size -> 1 <= i < 2 * size -> i < 2 ^ fuel ->
+  (forall k, 1 <= k < size -> k <> i / 2 -> node_ok o t k) ->
+  length (st_set_loop fuel t o i) = 2 * size /\
+  (forall k, 1 <= k < size -> node_ok o (st_set_loop fuel t o i) k) /\
+  (forall k, size <= k -> nth k (st_set_loop fuel t o i) RNull = nth k t RNull).
+Proof.
+  intros o size Hs. induction fuel as [|f IH]; intros i t Hlen Hi Hf Hok.
+  - cbn in Hf. lia.
+  - cbn [st_set_loop]. destruct (Nat.ltb_spec 1 i) as [H1|H1].
+    + set (p := i / 2). assert (Hp : 1 <= p < size) by (unfold p; lia).
+      rewrite Nat.pow_succ_r' in Hf.
+      destruct (IH p (upd t p (combine o (nth (2 * p) t RNull) (nth (2 * p + 1) t RNull)))) as [I1 [I2 I3]].
+      * rewrite upd_length. auto.
+      * lia.
+      * unfold p. lia.
+      * intros k Hk Hne. unfold node_ok.
+        destruct (Nat.eq_dec k p) as [->|Hkp].
+        -- rewrite nth_upd by lia. rewrite Nat.eqb_refl. rewrite !nth_upd_other by lia. reflexivity.
+        -- rewrite !nth_upd_other by lia. apply Hok; auto.
+      * split; auto. split; auto. intros k Hk. rewrite I3 by auto. apply nth_upd_other. lia.
+    + split; auto. split; auto. intros k Hk. apply Hok; auto. lia.
+Qed.
+
+Theorem st_set_ok : forall s vals pos v, st_ok s vals -> pos < length vals ->
+  st_ok (st_set s pos v) (upd vals pos v) /\ st_op (st_set s pos v) = st_op s.
+Proof.
+  intros s vals pos v [Hs [Hn [Hle [[Hlen Hok] Hleaf]]]] Hpos. unfold st_set.
+  destruct (Nat.leb_spec (st_n s) pos); [lia|]. cbn [st_op]. split; [|reflexivity].
+  set (i := pos + st_size s).
+  destruct (set_loop_spec (st_op s) (st_size s) Hs (S (st_size s)) i (upd (st_tree s) i v)) as [L1 [L2 L3]].
+  - rewrite upd_length. auto.
+  - unfold i. lia.
+  - pose proof (Nat.pow_gt_lin_r 2 (st_size s)). rewrite Nat.pow_succ_r'. unfold i. lia.
+  - intros k Hk Hne. unfold node_ok. rewrite !nth_upd_other by (unfold i in *; lia). apply Hok. auto.
+  - unfold st_ok. cbn [st_size st_n st_op st_tree]. rewrite upd_length.
+    split; auto. split; auto. split; auto. split; [split; auto|].
+    intros j Hj. rewrite L3 by lia.
+    destruct (Nat.eq_dec j pos) as [->|Hne].
+    + rewrite Nat.add_comm. fold i. rewrite !nth_upd by (try rewrite Hlen; unfold i; lia).
+      rewrite !Nat.eqb_refl. reflexivity.
+    + rewrite !nth_upd_other by (unfold i; lia). apply Hleaf. auto.
+Qed.
+
+(* ================= 9. nested-set MIN / MAX roll-up at index level ================= *)
+Lemma spec_mm_fold : forall o measure l acc,
+  fold_left (fun acc d => match nth d measure None with
+                          | Some z => combine o acc (RInt z)
+                          | None => acc
+                          end) l acc
+  = combine o acc (mfold o (map (fun x => rv_of (nth x measure None) RNull) l)).
+Proof.
+  intros o measure. induction l as [|d l IH]; intros acc; cbn [fold_left map mfold fold_right].
+  - rewrite combine_null_r. reflexivity.
+  - rewrite IH. fold (mfold o (map (fun x => rv_of (nth x measure None) RNull) l)).
+    destruct (nth d measure None); cbn [rv_of]; [apply eq_sym, combine_assoc|reflexivity].
+Qed.
+
+Definition mm (o : rop) : Prop := o = OMin \/ o = OMax.
+
+Section NestedMM.
+  Variables (p : poset) (rk : nat -> nat).
+  Hypothesis W : wf_poset p rk.
+  Hypothesis F : forest p.
+  Let n := pn p.
+  Let order := flat_map (preorder (S n) (children p)) (roots p).
+  Let tin := map (fun v => index_of v order) (seq 0 n).
+  Let tout := map (fun v => index_of v order + length (preorder (S n) (children p) v) - 1) (seq 0 n).
+  Ltac fh := auto; try apply W; try apply roots_nodup; try apply roots_spec.
+
+  Definition rank_vals (measure : list (option Z)) : list rv :=
+    map (fun x => rv_of (nth x measure None) RNull) order.
+
+  Lemma order_len : length order = n.
+  Proof. apply (order_length n (parents p) (children p) (roots p) rk); fh. Qed.
+
+  Lemma rank_vals_nth : forall measure r, r < n ->
+    nth r (rank_vals measure) RNull = rv_of (nth (nth r order 0) measure None) RNull.
+  Proof.
+    intros measure r Hr. unfold rank_vals.
+    rewrite (nth_indep _ RNull (rv_of (nth 0 measure None) RNull)) by (rewrite map_length, order_len; auto).
+    rewrite (map_nth (fun x => rv_of (nth x measure None) RNull)). reflexivity.
+  Qed.
+
+  Definition nested_ok_mm (ix : index) (measure : list (option Z)) : Prop :=
+    ix_poset ix = p /\ ix_enc ix = build_nested p /\ ix_measure ix = Some measure /\ length measure = n /\
+    forall o d, mm o -> assoc_op o (ix_rollups ix) = Some d ->
+      exists s, d = RSeg s /\ st_op s = o /\ st_ok s (rank_vals measure).
+
+  Lemma by_rank_mm : forall measure o, mm o -> length measure = n -> by_rank n tin measure o = rank_vals measure.
+  Proof.
+    intros measure o Ho Hm. apply nth_ext with (d := RNull) (d' := RNull).
+    - rewrite (nr_by_rank_length p rk W F) by auto. unfold rank_vals. rewrite map_length, order_len. reflexivity.
+    - intros r Hr. rewrite (nr_by_rank_length p rk W F) in Hr by auto.
+      rewrite (nr_by_rank p rk W F) by auto. rewrite rank_vals_nth by auto.
+      destruct Ho as [->| ->]; reflexivity.
+  Qed.
+
+  Lemma nested_ok_mm_set : forall measure ops, length measure = n ->
+    nested_ok_mm (set_measure (mk_index p (build_nested p) None []) measure ops) measure.
+  Proof.
+    intros measure ops Hm. repeat split; auto.
+    intros o d Ho Hd. unfold set_measure, mk_index in Hd. cbn [ix_rollups] in Hd.
+    rewrite assoc_set_measure in Hd by (destruct Ho as [->| ->]; discriminate). cbn [assoc_op] in Hd.
+    destruct (existsb (rop_eqb o) ops); [|discriminate]. inversion Hd; subst d.
+    unfold rollup_data. cbn [ix_enc ix_poset]. rewrite (nr_enc p). cbn [pn]. fold n.
+    replace (is_invertible o) with false by (destruct Ho as [->| ->]; reflexivity).
+    change (map (fun v => index_of v (flat_map (preorder (S n) (children p)) (roots p))) (seq 0 n)) with tin.
+    rewrite by_rank_mm by auto.
+    destruct (st_build_ok (rank_vals measure) o) as [B1 B2]; [destruct Ho as [->| ->]; reflexivity|].
+    eexists; split; [reflexivity|]. split; auto.
+  Qed.
+
+  Lemma nested_ok_mm_update : forall ix measure node v ix', nested_ok_mm ix measure -> node < n ->
+    update_measure ix node v = Some ix' -> nested_ok_mm ix' (upd measure node v).
+  Proof.
+    intros ix measure node v ix' [Hp [He [Hmm [Hl Hf]]]] Hnode Hu.
+    unfold update_measure in Hu. rewrite Hmm in Hu. inversion Hu; subst ix'; clear Hu.
+    repeat split; cbn [ix_poset ix_enc ix_measure ix_rollups]; auto.
+    - rewrite upd_length. auto.
+    - intros o d Ho Hd. rewrite (assoc_map_upd) in Hd.
+      destruct (assoc_op o (ix_rollups ix)) as [d0|] eqn:E0; [|discriminate].
+      destruct (Hf o d0 Ho E0) as [s [-> [Hop Hok]]]. cbn [option_map] in Hd. inversion Hd; subst d. clear Hd.
+      unfold update_rdata. rewrite He, (nr_enc p).
+      assert (Hrank : nth node tin 0 < n).
+      { unfold tin. rewrite nth_map_seq by auto. apply (tin_lt n (parents p) (children p) (roots p) rk); fh. }
+      assert (Hnr : nth (nth node tin 0) order 0 = node).
+      { unfold tin. rewrite nth_map_seq by auto. apply nth_index_of.
+        apply (in_order n (parents p) (children p) (roots p) rk); fh. }
+      assert (Hrl : length (rank_vals measure) = n) by (unfold rank_vals; rewrite map_length; apply order_len).
+      destruct (st_set_ok s (rank_vals measure) (nth node tin 0) (rv_of v (identity o)) Hok) as [S1 S2]; [lia|].
+      eexists; split; [reflexivity|]. split; [etransitivity; [exact S2|exact Hop]|].
+      replace (rank_vals (upd measure node v)) with (upd (rank_vals measure) (nth node tin 0) (rv_of v (identity o))); auto.
+      apply nth_ext with (d := RNull) (d' := RNull).
+      + rewrite upd_length. unfold rank_vals. rewrite !map_length. reflexivity.
+      + intros r Hr. rewrite upd_length, Hrl in Hr. rewrite rank_vals_nth by auto.
+        destruct (Nat.eq_dec r (nth node tin 0)) as [->|Hne].
+        * rewrite nth_upd by lia. rewrite Nat.eqb_refl, Hnr. rewrite nth_upd by lia. rewrite Nat.eqb_refl.
+          destruct Ho as [->| ->]; reflexivity.
+        * rewrite nth_upd_other by auto. rewrite rank_vals_nth by auto.
+          rewrite nth_upd_other; auto. intros E. apply Hne. rewrite <- E.
+          unfold tin. rewrite nth_map_seq by (rewrite E; auto). symmetry.
+          apply (tin_nth n (parents p) (children p) (roots p) rk); fh.
+  Qed.
+
+  Lemma nested_ok_mm_rollup : forall ix measure y o, nested_ok_mm ix measure -> y < n -> mm o ->
+    assoc_op o (ix_rollups ix) <> None -> rollup ix y o = Some (rollup_spec p measure y o).
+  Proof.
+    intros ix measure y o [Hp [He [Hmm [Hl Hf]]]] Hy Ho Hs.
+    destruct (assoc_op o (ix_rollups ix)) as [d|] eqn:E; [|congruence].
+    destruct (Hf o d Ho E) as [s [-> [Hop Hok]]].
+    assert (Hrl : length (rank_vals measure) = n) by (unfold rank_vals; rewrite map_length; apply order_len).
+    assert (Hid : identity (st_op s) = RNull) by (rewrite Hop; destruct Ho as [->| ->]; reflexivity).
+    assert (Hne : length (preorder (S n) (children p) y) >= 1)
+      by (apply (T_nonempty n (parents p) (children p) (roots p) rk); fh).
+    assert (R : rollup ix y o = Some (st_range s (nth y tin 0) (nth y tout 0))).
+    { unfold rollup. rewrite E, He, (nr_enc p). destruct Ho as [->| ->]; reflexivity. }
+    rewrite R. f_equal.
+    assert (Htin : nth y tin 0 = tin_of n (children p) (roots p) y) by (unfold tin; rewrite nth_map_seq by auto; reflexivity).
+    assert (Htout : nth y tout 0 = tout_of n (children p) (roots p) y) by (unfold tout; rewrite nth_map_seq by auto; reflexivity).
+    rewrite (st_range_ok s (rank_vals measure)); auto.
+    - rewrite Hop. unfold rank_vals. rewrite skipn_map, firstn_map.
+      fold (slice order (nth y tin 0) (nth y tout 0)). rewrite Htin, Htout.
+      rewrite (forest_slice n (parents p) (children p) (roots p) rk); fh.
+      assert (RS : rollup_spec p measure y o =
+                   fold_left (fun acc d => match nth d measure None with
+                                           | Some z => combine o acc (RInt z)
+                                           | None => acc
+                                           end) (spec_desc p y) RNull)
+        by (destruct Ho as [->| ->]; reflexivity).
+      rewrite RS, spec_mm_fold. cbn [combine].
+      apply mfold_perm. apply Permutation_map. apply (nr_desc_perm p rk W F); auto.
+    - rewrite Htin, Htout. unfold tin_of, tout_of. lia.
+    - rewrite Hrl, Htout. apply (tout_lt n (parents p) (children p) (roots p) rk); fh.
+  Qed.
+
+  (* all four monoids, after every sequence of point updates *)
+  Theorem nested_rollup_all : forall measure ops us, length measure = n ->
+    (forall u, In u us -> fst u < n) ->
+    exists ix', apply_updates (set_measure (mk_index p (build_nested p) None []) measure ops) us = Some ix' /\
+      forall y o, y < n -> (o = OCount \/ In o ops) ->
+        rollup ix' y o = Some (rollup_spec p (upd_all measure us) y o).
+  Proof.
+    intros measure ops us Hm Hus.
+    set (ix0 := set_measure (mk_index p (build_nested p) None []) measure ops).
+    assert (G : forall us ix m, nested_ok p ix m -> nested_ok_mm ix m ->
+                (forall u, In u us -> fst u < n) ->
+                exists ix', apply_updates ix us = Some ix' /\ nested_ok p ix' (upd_all m us) /\
+                            nested_ok_mm ix' (upd_all m us) /\
+                            (forall o, assoc_op o (ix_rollups ix') = None <-> assoc_op o (ix_rollups ix) = None)).
+    { induction us0 as [|[node v] us0 IH]; intros ix m H1 H2 Hu.
+      - exists ix. split; [reflexivity|]. split; [exact H1|]. split; [exact H2|]. intros o; tauto.
+      - destruct (nested_ok_update p rk W F ix m node v H1) as [ix1 [E1 [Hok1 Hs1]]].
+        { apply (Hu (node, v)). cbn; auto. }
+        assert (Hok2 : nested_ok_mm ix1 (upd m node v)).
+        { apply (nested_ok_mm_update ix m node v ix1); auto. apply (Hu (node, v)). cbn; auto. }
+        cbn [apply_updates]. rewrite E1. unfold upd_all. cbn [fold_left fst snd].
+        destruct (IH ix1 (upd m node v) Hok1 Hok2) as [ix' [E' [K1 [K2 K3]]]].
+        { intros u Hin'. apply Hu. cbn; auto. }
+        exists ix'. split; [exact E'|]. split; [exact K1|]. split; [exact K2|]. intros o. rewrite K3. apply Hs1. }
+    destruct (G us ix0 measure (nested_ok_set p rk W F measure ops Hm) (nested_ok_mm_set measure ops Hm) Hus)
+      as [ix' [E [K1 [K2 K3]]]].
+    exists ix'; split; auto. intros y o Hy Ho.
+    assert (Hin : forall o', o' <> OCount -> In o' ops -> assoc_op o' (ix_rollups ix') <> None).
+    { intros o' Hne Hin H. apply K3 in H. unfold ix0, set_measure, mk_index in H. cbn [ix_rollups] in H.
+      rewrite assoc_set_measure in H by auto.
+      replace (existsb (rop_eqb o') ops) with true in H
+        by (symmetry; apply existsb_exists; exists o'; split; auto; apply rop_eqb_eq; auto).
+      discriminate. }
+    destruct (nested_ok_rollup p rk W F ix' _ y K1 Hy) as [R1 R2].
+    destruct o.
+    - apply R2. apply Hin; [discriminate|]. destruct Ho; [discriminate|auto].
+    - exact R1.
+    - apply nested_ok_mm_rollup; auto; [left; auto|]. apply Hin; [discriminate|]. destruct Ho; [discriminate|auto].
+    - apply nested_ok_mm_rollup; auto; [right; auto|]. apply Hin; [discriminate|]. destruct Ho; [discriminate|auto].
+  Qed.
+End NestedMM.
